@@ -108,6 +108,16 @@ class Verifier(Stmts):
         if ok is not None:
             self.setcell(ok, r, z3.Store(z, k, False)); outs.append((ok, mk_none()))
         return outs
+    def bm_set_pop(self, st, r, args, kw, node):
+        # removes and returns an ARBITRARY member; KeyError on the empty set
+        if r.t.elem == ANY: return [self.raise_(st, 'KeyError', 'pop from an empty set')]
+        z = self.deref(st, r); x = fresh_z(r.t.elem, 'popped')
+        empty = z3.K(sort_of(r.t.elem), z3.BoolVal(False))
+        outs, ok = self.guard(st, z != empty, 'KeyError', node, 'pop from an empty set')
+        if ok is not None:
+            ok.assume(z3.Select(z, x))
+            self.setcell(ok, r, z3.Store(z, x, False)); outs.append((ok, V(r.t.elem, x)))
+        return outs
     def bm_set_copy(self, st, r, args, kw, node): return [(st, self.alloc(st, r.t, self.deref(st, r)))]
     def bm_set_isdisjoint(self, st, r, args, kw, node):
         a = args[0]
